@@ -10,29 +10,42 @@ RULE = ("obj cases: kind in {MACObj, EUI64Obj}; a 48/64-bit value that is bounda
         "all-but-one bit, 00/ff/0f/f0/0a/a0/09/10 byte patterns, one leading zero byte, one nonzero byte, else uniform) "
         "spelled with one of the four templates (xx-xx-.., xx:xx:.., xxxx.xxxx.., bare hex) in upper, lower or per-letter "
         "random case; the second text (for ==/!=) is another spelling of the same value, a value one nibble or +-1 away, "
-        "an unrelated value or a malformed text. Malformed stream: near misses derived from a valid spelling (one group "
+        "a value congruent modulo 2^61-1 / 2^32 / 2^48 / 2^56, an unrelated value or a malformed text. Twin stream: a 48-bit and a "
+        "64-bit object with the same integer back to back. xeq stream: == and != between any two of MACObj, EUI64Obj, plain "
+        "macaddress.EUI48, plain EUI64 (all 16 ordered combinations) with the same integer, one flipped bit, or one malformed "
+        "text. Malformed stream: near misses derived from a valid spelling (one group "
         "short, one group long, a 1-digit group, a 3-digit group, mixed or foreign separators, 13/17 hex digits, one non-hex "
         "letter incl. 'x', 'X', 'g', full-width and Arabic-Indic digits, blanks / tab / newline before or after, '0x' prefix, "
         "the spelling of the other size, shifted separators, empty string). classify cases: macaddress.parse(word, MAC, EUI64) "
         "as MACEUISearch calls it, on the same streams. formats cases: the model's templates against macaddress' class "
-        "attributes. non-trivial = an obj or classify case with a non-empty text, distinct by request line. Only str "
+        "attributes (the same templates are also a generated table, proved equal to the model's). non-trivial = an obj, classify "
+        "or xeq case with a non-empty text, distinct by request line. Only str "
         "arguments are generated (int/bytes/object arguments of the constructors are outside the property); lone "
         "surrogates are not generated.")
 LEVEL_TEXT = ("Theorems (Lean 4, all 2^48 / 2^64 values, all strings): every rendering is the lower-case two-hex-digit bytes of the "
               "value joined by the right separator; every rendering (and the separator-free form) constructs back the same value; a "
               "text is accepted iff it instantiates one of the four templates of its size with hex digits of either case, and then "
               "its value is the number its hex digits spell, below 2^size; two accepted texts compare == iff their values are equal; "
-              "texts of any other length and near misses are rejected with ValueError; ofHex(toHex w v) = v. The model (templates as "
+              "texts of any other length and near misses are rejected with ValueError; ofHex(toHex w v) = v. Classification "
+              "(macaddress.parse(word, MAC, EUI64) of MACEUISearch): a word is classified as the 48-bit (64-bit) kind with value v iff "
+              "the constructor of that kind accepts it with value v, iff it instantiates a template of that size - never both - and is "
+              "rejected iff it instantiates none. == between any two of MACObj, EUI64Obj, plain EUI48, plain EUI64 built from accepted "
+              "texts is true iff same size and same address; the same integer in the other size is never equal. The model's templates, "
+              "sizes and hex alphabet equal those of the installed macaddress package (generated table, decide). The model (templates as "
               "data, macaddress._parse narrowing loop, HWAddress.__str__, the split/f-string renderings, __eq__ on lower-cased dash "
               "text) is tied to MACObj/EUI64Obj by differential runs on every check.")
 LEVEL_NOTE = ("Trusted: Lean kernel; axioms propext/Classical.choice/Quot.sound only; the correspondence harness. macaddress 2.0.2 is "
               "modelled, not verified: its templates and its _parse/__str__ are re-implemented in Lean and agreement is measured "
-              "(templates compared verbatim on every run). Proved about the model, measured against the code.")
+              "(its templates, sizes and _HEX_DIGITS are regenerated from the installed package into Ccp.Gen.Tables on every run and "
+              "proved equal to the model's by `templates_as_modelled`; they are also compared by a run-time request). Python's choice of "
+              "which __eq__ runs (reflected call first when the right operand is a subclass instance) is written into the model's objEq "
+              "and measured. Proved about the model, measured against the code.")
 SERIAL = False
 EXHAUSTIVE = {"quick": False, "thorough": False}
 ASSUMPTIONS = [
     "constructor argument is a str without lone surrogates",
-    "macaddress 2.0.2 templates for EUI48/EUI64 are the eight listed in lean/Ccp/Model/Mac.lean (compared on every run)",
+    "the macaddress templates for EUI48/EUI64 are read by importing the installed third-party module (it is not in /repo); "
+    "theorem templates_as_modelled fails to check if they differ from lean/Ccp/Model/Mac.lean",
     "str.lower() is applied only to the ASCII output of HWAddress.__str__, so the model's ASCII lower-casing suffices",
 ]
 TRUSTED = ["macaddress._parse / HWAddress.__str__ re-implemented in the model (modelled, not verified)"]
@@ -150,6 +163,12 @@ def mk_classify(s, meta=None, origin="gen"):
     return {"op": "classify", "s1": s, "meta": meta or {}, "req": wire.req("mac", "classify", wire.enc_str(s)), "_origin": origin}
 
 
+def mk_xeq(k1, f1, s1, k2, f2, s2, meta=None, origin="gen"):
+    """`a == b` / `a != b` between any two objects: f = 'w' (MACObj / EUI64Obj) or 'p' (plain macaddress object)"""
+    return {"op": "xeq", "k1": k1, "f1": f1, "s1": s1, "k2": k2, "f2": f2, "s2": s2, "meta": meta or {},
+            "req": wire.req("mac", "xeq", k1, f1, wire.enc_str(s1), k2, f2, wire.enc_str(s2)), "_origin": origin}
+
+
 def mk_formats(kind):
     return {"op": "formats", "kind": kind, "meta": {}, "req": wire.req("mac", "formats", kind), "_origin": "gen"}
 
@@ -157,6 +176,8 @@ def mk_formats(kind):
 def from_corpus(c):
     if c.get("op") == "classify":
         return mk_classify(c["s1"], origin="corpus")
+    if c.get("op") == "xeq":
+        return mk_xeq(c["k1"], c["f1"], c["s1"], c["k2"], c["f2"], c["s2"], origin="corpus")
     return mk_obj(c["kind"], c["s1"], c.get("s2", ""), origin="corpus")
 
 
@@ -239,6 +260,21 @@ def cases(rng, tier):
             pair.append(mk_obj(kind, spell(nb, v, tpl, "lower", rng), spell(nb, v, rng.choice(TEMPLATES), "upper", rng),
                                {"value": v, "tpl": tpl, "case": "lower", "valid": True, "rel": "same", "twin": True}))
         yield from pair
+    # == across sizes and wrapper / plain objects: the same integer (or a neighbour) in every combination
+    forms = [(k, f) for k in KINDS for f in "wp"]
+    for i in range({"quick": 400, "thorough": 20000, "search": 200}[tier]):
+        v = rand_value(6, rng) if i % 4 else rng.choice([0, 1, 0xFF, (1 << 48) - 1, 0x1DEADBEEF])
+        (k1, f1), (k2, f2) = rng.choice(forms), rng.choice(forms)
+        r = rng.random()
+        w, rel = (v, "same") if r < 0.6 else (v ^ (1 << rng.randrange(48)), "bit") if r < 0.85 else (v, "malformed")
+        s1 = spell(KINDS[k1], v, rng.choice(TEMPLATES), rng.choice(["upper", "lower", "mixed"]), rng)
+        s2 = spell(KINDS[k2], w, rng.choice(TEMPLATES), rng.choice(["upper", "lower", "mixed"]), rng)
+        if rel == "malformed":
+            if rng.random() < 0.5:
+                s1, _ = malform(s1, KINDS[k1], rng)
+            else:
+                s2, _ = malform(s2, KINDS[k2], rng)
+        yield mk_xeq(k1, f1, s1, k2, f2, s2, {"rel": rel})
     n = {"quick": 5000, "thorough": 400000, "search": 3000}[tier]
     for i in range(n):
         c = _one_obj(rng, 0.35)
@@ -264,17 +300,19 @@ def neighbours(case, rng):
         t = "".join(t)
         if case["op"] == "classify":
             yield mk_classify(t)
+        elif case["op"] == "xeq":
+            yield mk_xeq(case["k1"], case["f1"], t, case["k2"], case["f2"], case["s2"])
         else:
             yield mk_obj(case["kind"], t, case["s2"] if rng.random() < 0.5 else s, {"valid": None, "rel": "?"})
 
 
 def nontrivial(case):
-    return case["op"] in ("obj", "classify") and case["s1"] != ""
+    return case["op"] in ("obj", "classify", "xeq") and case["s1"] != ""
 
 
 def describe(case):
     d = {"op": case["op"]}
-    for k in ("kind", "s1", "s2"):
+    for k in ("kind", "k1", "f1", "s1", "k2", "f2", "s2"):
         if k in case:
             d[k] = case[k]
     return d
@@ -298,6 +336,9 @@ def buckets(case, ans):
                 out.append("eq:" + f[12])
     elif case["op"] == "classify":
         out.append("classify:" + ans.split(" ")[0])
+    elif case["op"] == "xeq":
+        out.append("xeq:%s%s==%s%s:%s" % (case["k1"], case["f1"], case["k2"], case["f2"], ans.split("|")[0]))
+        out.append("xeq-second:" + m.get("rel", "?"))
     return out
 
 
@@ -323,6 +364,14 @@ def impl(case):
             return "err:ValueError"
         name = "EUI48" if isinstance(r, MACObj) else "EUI64"
         return name + " " + str(int(r))
+    if case["op"] == "xeq":
+        mk = {("mac", "w"): MACObj, ("eui64", "w"): EUI64Obj, ("mac", "p"): macaddress.EUI48, ("eui64", "p"): macaddress.EUI64}
+        try:
+            a = mk[case["k1"], case["f1"]](case["s1"])
+            b = mk[case["k2"], case["f2"]](case["s2"])
+        except ValueError:
+            return "err:ValueError"
+        return ("T" if a == b else "F") + "|" + ("T" if a != b else "F")
     cls, raw, inner = (MACObj, macaddress.EUI48, "mac") if case["kind"] == "mac" else (EUI64Obj, macaddress.EUI64, "eui64")
     try:
         obj = cls(case["s1"])
@@ -391,6 +440,14 @@ def oracle(case, ans):
         v48, v64 = ref_value("mac", case["s1"]), ref_value("eui64", case["s1"])
         want = "EUI48 %d" % v48 if v48 is not None else "EUI64 %d" % v64 if v64 is not None else "err:ValueError"
         return [] if ans == want else [f"classification is {ans[:60]} expected {want}"]
+    if case["op"] == "xeq":
+        v1, v2 = ref_value(case["k1"], case["s1"]), ref_value(case["k2"], case["s2"])
+        if v1 is None or v2 is None:
+            return [] if ans == "err:ValueError" else [f"a text that is not an address of its size was accepted: {ans[:40]}"]
+        same = case["k1"] == case["k2"] and v1 == v2       # same size and same address
+        want = "T|F" if same else "F|T"
+        return [] if ans == want else [
+            f"{case['k1']}/{case['f1']} {v1:x} ==|!= {case['k2']}/{case['f2']} {v2:x} is {ans}, expected {want}"]
     kind, nb = case["kind"], KINDS[case["kind"]]
     v = ref_value(kind, case["s1"])
     if v is None:
